@@ -252,6 +252,29 @@ pub fn run_history(history: &[Op]) -> Result<HistoryInfo, Failure> {
                         if r.is_ok() {
                             info.successful_emits += 1;
                         }
+                        // asked again straight after a call that fails (and leaves its message as the last
+                        // result), the task gives the same answer: nothing of what another call left behind
+                        // may be taken for this task's module. The interpreter's own observation calls all
+                        // succeed, so this sequence has to be made here.
+                        let dead = usize::MAX / 2 + 1 + step;
+                        let before = abi::emit_js(id);
+                        if before != r {
+                            return Err(fail("emit-again-differs", step, history, format!("task {id} emitted {:?}, then {:?}", r, before)));
+                        }
+                        match step % 3 {
+                            0 => drop(abi::get_required_files(dead)),
+                            1 => drop(abi::emit_js(dead)),
+                            _ => drop(abi::load_file(dead, FILES[0], SOURCES[0])),
+                        }
+                        let again = abi::emit_js(id);
+                        if again != r {
+                            return Err(fail(
+                                "emit-again-after-failed-call-differs",
+                                step,
+                                history,
+                                format!("task {id} emitted {:?}, then - after a call on an unknown task failed - {:?}", r, again),
+                            ));
+                        }
                     }
                 }
             }
